@@ -97,9 +97,19 @@ type Explorer struct {
 	known    map[*Term]*Term // term -> constant implied by an equality on the path
 	curFr    *frame
 	curInstr ssa.Instruction
+	byteSets    map[*Term]*byteSet
+	complexVars map[*Term]bool
+	ByteDecided int
 }
 
 // where describes the target-program location being executed.
+func (e *Explorer) whereFn() string {
+	if e.curFr == nil || e.curFr.fn == nil {
+		return "?"
+	}
+	return e.curFr.fn.String()
+}
+
 func (e *Explorer) where() string {
 	if e.curFr == nil || e.curFr.fn == nil {
 		return "?"
@@ -139,6 +149,8 @@ func (e *Explorer) beginPath(item WorkItem) {
 	e.nameCnt = map[string]int{}
 	e.steps = 0
 	e.known = map[*Term]*Term{}
+	e.byteSets = map[*Term]*byteSet{}
+	e.complexVars = map[*Term]bool{}
 	e.trace = e.trace[:0]
 	if e.solver != nil {
 		e.solver.Pop(e.solver.depth)
@@ -156,6 +168,7 @@ func (e *Explorer) addPC(t *Term) {
 		e.known[t.B] = t.A
 	}
 	e.pc = append(e.pc, t)
+	e.noteConjunct(t)
 	if e.solver != nil {
 		e.solver.Assert(t)
 	}
@@ -205,6 +218,41 @@ func (e *Explorer) Branch(cond *Term) bool {
 		e.addPC(Not(cond))
 		return false
 	}
+	if canT, canF, bv, tv, fv, okb := e.byteBranch(cond); okb {
+		// exact: the variable occurs only in simple conjuncts
+		e.stats.Assumes["branches decided by the byte-set domain (no solver query)"]++
+		cur, okc := e.evalBool(cond)
+		if !okc || (cur && !canT) || (!cur && !canF) {
+			cur = canT
+		}
+		withVal := func(val uint64) map[string]uint64 {
+			m := make(map[string]uint64, len(e.model.vals)+1)
+			for k, x := range e.model.vals {
+				m[k] = x
+			}
+			m[bv.Name] = val
+			return m
+		}
+		if cur && canF {
+			e.work = append(e.work, WorkItem{Prefix: clonePath(e.path, Decision{'b', 0}), Model: withVal(fv)})
+		} else if !cur && canT {
+			e.work = append(e.work, WorkItem{Prefix: clonePath(e.path, Decision{'b', 1}), Model: withVal(tv)})
+		}
+		if cur {
+			if got, _ := e.model.TryEval(cond); got == 0 {
+				e.setModel(withVal(tv))
+			}
+			e.path = append(e.path, Decision{'b', 1})
+			e.addPC(cond)
+		} else {
+			if got, _ := e.model.TryEval(cond); got != 0 {
+				e.setModel(withVal(fv))
+			}
+			e.path = append(e.path, Decision{'b', 0})
+			e.addPC(Not(cond))
+		}
+		return cur
+	}
 	v, ok := e.evalBool(cond)
 	if !ok {
 		// model cannot decide: ask the solver for the true side first
@@ -233,6 +281,15 @@ func (e *Explorer) Branch(cond *Term) bool {
 	other := Not(cond)
 	if !v {
 		other = cond
+	}
+	e.stats.Assumes["q:branch at "+e.whereFn()]++
+	if strings.Contains(e.whereFn(), "lookup") && len(e.stats.Assumes) < 60 {
+		vs := termVars(cond)
+		names := ""
+		for _, v := range vs {
+			names += v.Name + fmt.Sprintf("(%d,complex=%v) ", v.W, e.complexVars[v])
+		}
+		e.stats.Assumes["DBG "+dbgTerm(cond, 5)+" vars: "+names]++
 	}
 	r, m := e.solver.Check(other)
 	switch r {
@@ -537,4 +594,21 @@ func fmtPath(p []Decision) string {
 		fmt.Fprintf(&sb, "%c%d ", d.Kind, d.Choice)
 	}
 	return sb.String()
+}
+
+
+func dbgTerm(t *Term, d int) string {
+	if t == nil {
+		return ""
+	}
+	if t.Op == OConst {
+		return fmt.Sprintf("%d", t.K)
+	}
+	if t.Op == OVar {
+		return t.Name
+	}
+	if d == 0 {
+		return "…"
+	}
+	return fmt.Sprintf("(op%d %s %s %s)", t.Op, dbgTerm(t.A, d-1), dbgTerm(t.B, d-1), dbgTerm(t.C, d-1))
 }
